@@ -37,12 +37,16 @@ def plan(tier):
         specs = [(2, [("dense", 1, 5), ("bounded", 3, 6, 7)], MENU_PAIR_Q),
                  (3, [("dense", 1, 3)], MENU_LIST_Q),
                  (4, [("dense", 1, 2)], MENU_LIST_Q[:1]),
+                 # with clock <= 2 no two distinct lattice spikes are coincident (window <= u):
+                 # single-spike trains at clock 3-4 give non-zero order / directionality for N=4
+                 (4, [("bounded", 1, 3, 4)], MENU_LIST_Q),
                  (5, [("bounded", 1, 1, 2)], MENU_LIST_Q[:1]), (6, [("bounded", 1, 1, 1)], MENU_LIST_Q[:1])]
     else:
         specs = [(2, [("dense", 1, 6)], MENU_PAIR_T), (2, [("dense", 7, 7), ("bounded", 3, 8, 10)],
                                                        MENU_PAIR_Q + [(None, 12 * U)]),
                  (3, [("dense", 1, 4)], MENU_LIST_T[:3]),
                  (4, [("dense", 1, 2)], MENU_LIST_T[:2]), (4, [("dense", 3, 3)], MENU_LIST_Q[:1]),
+                 (4, [("bounded", 1, 3, 6)], MENU_LIST_Q),
                  (5, [("bounded", 1, 1, 3)], MENU_LIST_Q), (6, [("bounded", 1, 1, 2)], MENU_LIST_Q[:1])]
     tasks, descs = [], []
     mixed_ks = (8,) if tier == "quick" else (8, 10)
@@ -57,7 +61,7 @@ def plan(tier):
                           "(pooled threshold of the whole list)"})
     for N, regimes, menu in specs:
         sel = "all"
-        if N == 4 and (tier == "quick" or regimes[0][1] == 3):
+        if N == 4 and (tier == "quick" or regimes[0][1] == 3 or regimes[0][0] == "bounded"):
             sel = "quick4"
         if N >= 5:
             sel = "many%d" % N
